@@ -13,8 +13,8 @@ for d in seeded/*/; do
   fi
   out=$(PYVC_NO_EVIDENCE=1 python3-vt -W ignore -m pyvc.check $pid --tier quick --repo $T/repo --no-evidence 2>&1)
   rc=$(echo "$out" | grep -E "^$pid:" | sed 's/.*exit=//')
-  ded=$(echo "$out" | grep VIOLATION | grep -v "bounded/" | sed 's/.*obligation=//' | awk '{print $1}' | sort -u | head -4 | tr '\n' ' ')
-  bnd=$(echo "$out" | grep VIOLATION | grep "bounded/" | sed 's/.*obligation=//' | awk '{print $1}' | sort -u | head -3 | tr '\n' ' ')
+  ded=$(echo "$out" | grep VIOLATION | grep -v "bounded stand-in" | sed 's/.*obligation=//' | awk '{print $1}' | sort -u | head -4 | tr '\n' ' ')
+  bnd=$(echo "$out" | grep VIOLATION | grep "bounded stand-in" | sed 's/.*obligation=//' | awk '{print $1}' | sort -u | head -3 | tr '\n' ' ')
   und=$(echo "$out" | grep UNDECIDED | sed 's/.*obligation=//' | awk '{print $1}' | sort -u | head -3 | tr '\n' ' ')
   echo "$id: exit=$rc deductive=[$ded] bounded=[$bnd] undecided=[$und]"
   python3 - "$d" "$rc" "$ded" "$bnd" "$und" <<'PY'
